@@ -260,6 +260,9 @@ def install(reg):
 
 
 class MiniPCNMutate(Contract):
+    def must_return(self, shape):
+        return True
+
     qual = "samplers.smc.minipcn:MiniPCNSMC.mutate"
     cls = "MiniPCNSMC"
     kernel = "minipcn"
@@ -291,6 +294,8 @@ class MiniPCNMutate(Contract):
         for nm, gl in aligned_goals(q, r):
             p.prove(gl, nm)
         p.prove(to_real(r.f["beta"]) == g["beta"], f"{q}:C10:result carries the temperature it was mutated at")
+        nanq = I.eval_expr("xp.isnan(a).any()", "utils", {"a": r.f["log_q"], "xp": r.f["xp"]})
+        p.prove(z3.Not(I.truth(nanq, None)), f"{q}:C10:a population whose proposal density contains NaN is never returned (the guard raises instead)")
         p.prove(r.f["x"].n == g["n"], f"{q}:C10:population size unchanged by mutation")
         acc = s.f["history"].f["mcmc_acceptance"]
         p.prove(acc.len == g["acc_len0"] + 1, f"{q}:C18:exactly one acceptance entry appended per mutation")
@@ -332,6 +337,9 @@ from contracts.smc_base import DrawInitialSamplesModel  # noqa: E402
 
 
 class DrawInitialSamples(DrawInitialSamplesModel):
+    def must_return(self, shape):
+        return True
+
     qual = "samplers.mcmc:MCMCSampler.draw_initial_samples"
     properties = ("C10", "C17")
     doc = ("loop invariant: samples is None and nothing drawn, or len(samples) == n_drawn with log_q/log_prior belonging to the rows and "
@@ -408,6 +416,9 @@ class DrawInitialSamples(DrawInitialSamplesModel):
 
 
 class ImportanceSample(Contract):
+    def must_return(self, shape):
+        return True
+
     qual = "samplers.importance:ImportanceSampler.sample"
     properties = ("C10", "C17", "C02", "C15")
     doc = ("draws n_samples points with their proposal log-density from the flow in one call; attaches the prior of exactly those points, then the "
